@@ -6,6 +6,7 @@ import ZstdVerif.Model.SeqApi
 import ZstdVerif.Model.Seekable
 import ZstdVerif.Model.Window
 import ZstdVerif.Model.Dict
+import ZstdVerif.Model.MTBack
 import Driver.Util
 namespace Driver.Dec
 open ZstdVerif
@@ -220,6 +221,40 @@ def step (_ : Unit) (ws : List String) : Unit × String :=
           | .ok p' => go p' (fed + n) (k + 1) rest
           | .error _ => s!"err at={k} fed={fed}"
       ((), go p0 0 0 cs)
+  | ["pledgeh", pl, calls] =>
+      -- pledged-size bookkeeping over an explicit call history "<c|f|e><bytes>,..." (continue / flush / end, every call consuming all it is given);
+      -- a history that does not finish with an end gets a final empty end call, as the harness does
+      let p0 : Walker.Pledge := { plusOne := (match pl.toInt? with | some v => if v < 0 then 0 else v.toNat + 1 | none => 0), consumed := 0, started := false }
+      let cs : List (Nat × Walker.Dir) := ((calls.splitOn ",").filter (· != "-")).map (fun c =>
+        ((c.drop 1).toNat!, if c.front == 'e' then Walker.Dir.end_ else if c.front == 'f' then Walker.Dir.flush else Walker.Dir.cont))
+      let cs := match cs.getLast? with
+        | some (_, .end_) => cs
+        | _ => cs ++ [(0, Walker.Dir.end_)]
+      let rec goH (p : Walker.Pledge) (fed : Nat) (k : Nat) : List (Nat × Walker.Dir) → String
+        | [] => s!"ok fed={fed}"
+        | (n, d) :: rest =>
+          match p.call n d with
+          | .ok p' => goH p' (fed + n) (k + 1) rest
+          | .error _ => s!"err at={k} fed={fed}"
+      ((), goH p0 0 0 cs)
+  | ["mtback", nbWorkers, target, offered, piece] =>
+      -- multithreaded compression, producer ahead of a consumer that takes nothing: descriptors, and bytes accepted out of `offered`
+      -- presented in `piece`-byte writes (Model/MTBack.lean)
+      let slots := MT.ringSlots nbWorkers.toNat!
+      let T := target.toNat!
+      let total := offered.toNat!
+      let pc := max 1 piece.toNat!
+      let rec goB (b : MT.Back) (left : Nat) : Nat → MT.Back
+        | 0 => b
+        | fuel + 1 =>
+          let b' := b.call T (min pc left)
+          goB b' (left - (b'.accepted - b.accepted)) fuel
+      let b := goB (MT.Back.start (slots - 1)) total (total / pc + total / (max 1 T) + 8)
+      ((), s!"slots={slots} bound={(slots + 1) * T} accepted={b.accepted} jobs={b.ring.next} filled={b.filled}")
+  | ["decopt", fmt, ign, mbs, cap, hx] =>
+      -- one-shot decoding with the decoder options in force (format, forceIgnoreChecksum, maxBlockSize)
+      ((), resultLine (Frame.decompressAll (if hx == "-" then ByteArray.empty else ByteArray.ofHex hx) {} cap.toNat!
+              { magicless := fmt == "1", ignoreChecksum := ign != "0", maxBlockSize := mbs.toNat! }))
   | _ => ((), "bad-op")
 
 def main : IO Unit := do
